@@ -333,7 +333,15 @@ func c04AEAD(f []string) string {
 		return "bad-input"
 	}
 	kt, msgK, aadK, neg := f[1], f[2], f[3], strings.Split(f[5], ":")
-	rot, _ := strconv.Atoi(f[4])
+	// rotations after encrypting: a number (same key type) or a comma separated list of key types
+	var rotTypes []string
+	if n, e := strconv.Atoi(f[4]); e == nil {
+		for i := 0; i < n; i++ {
+			rotTypes = append(rotTypes, f[1])
+		}
+	} else {
+		rotTypes = strings.Split(f[4], ",")
+	}
 	// a fresh key per case: rotations change it
 	kid, kh, err := c04KMS.Create(c04Types[kt])
 	if err != nil {
@@ -349,8 +357,11 @@ func c04AEAD(f []string) string {
 		return "enc=err"
 	}
 	_ = ct2
-	for i := 0; i < rot; i++ {
-		kid, kh, err = c04KMS.Rotate(c04Types[kt], kid)
+	for _, rt := range rotTypes {
+		if _, ok := c04Types[rt]; !ok {
+			return "bad-input"
+		}
+		kid, kh, err = c04KMS.Rotate(c04Types[rt], kid)
 		if err != nil {
 			return "rotate=err"
 		}
@@ -439,7 +450,14 @@ func c04Gen(r *Rng, tier string) []string {
 			out = append(out, fmt.Sprintf("mac|%s|%s", r.Pick(msgs), neg))
 		case x < 9:
 			neg := []string{"none", fmt.Sprintf("ct:%d", r.N(1000)), fmt.Sprintf("nonce:%d", r.N(1000)), "aad", "key", "swapnonce", "emptyn"}[r.N(7)]
-			out = append(out, fmt.Sprintf("aead|%s|%s|%s|%d|%s", r.Pick(aeadT), r.Pick(msgs), r.Pick([]string{"e", "a", "b"}), r.N(3), neg))
+			rot := strconv.Itoa(r.N(3))
+			if r.N(3) == 0 { // rotate to other AEAD types (other nonce sizes, RAW vs TINK prefix)
+				rot = r.Pick(aeadT)
+				if r.Bool() {
+					rot += "," + r.Pick(aeadT)
+				}
+			}
+			out = append(out, fmt.Sprintf("aead|%s|%s|%s|%s|%s", r.Pick(aeadT), r.Pick(msgs), r.Pick([]string{"e", "a", "b"}), rot, neg))
 		default:
 			// scalars with leading zero bytes are the interesting ones
 			sz := 32
